@@ -514,7 +514,8 @@ func (t *rt) RoundTrip(req *http.Request) (*http.Response, error) {
 	case "200-invalid":
 		return mk(200, "<html>not an address</html>"), nil
 	case "4xx":
-		return mk(403, "forbidden"), nil
+		// (another client-error status at each provider position: they are all final, 408 and 429 included)
+		return mk([]int{403, 429, 408, 404, 499}[idx%5], "client error"), nil
 	case "5xx":
 		return mk(503, "try later"), nil
 	case "timeout-once-then-valid":
